@@ -96,7 +96,7 @@ def profiles(draw):
 
 
 CALLS = ["swap_toggle", "proc_start", "bad_timeout", "colors", "colors_hex", "colors_hex_false", "name_version", "cell_size", "kitty", "iterm2", "auto_class", "AutoImage",
-         "from_file", "ratio_fixed", "ratio_dynamic"]
+         "kitty_sub", "iterm2_sub", "from_file", "ratio_fixed", "ratio_dynamic"]
 
 
 @st.composite
@@ -246,6 +246,13 @@ def check_queries(c, rec):
                     got, exp = I.KittyImage.is_supported(), R.kitty_supported(p, environ, enabled)
                 elif call == "iterm2":
                     got, exp = I.ITerm2Image.is_supported(), R.iterm2_supported(p, environ, enabled)
+                elif call == "kitty_sub":
+                    # a user subclass asks (possibly before the style class itself was ever asked): same answer
+                    Sub = type(I.KittyImage)("SubKitty", (I.KittyImage,), {})
+                    got, exp = (Sub.is_supported(), Sub.is_supported()), (R.kitty_supported(p, environ, enabled),) * 2
+                elif call == "iterm2_sub":
+                    Sub = type(I.ITerm2Image)("SubITerm2", (I.ITerm2Image,), {})
+                    got, exp = (Sub.is_supported(), Sub.is_supported()), (R.iterm2_supported(p, environ, enabled),) * 2
                 elif call == "auto_class":
                     got, exp = I.auto_image_class().__name__, R.auto_class(p, environ, enabled)
                 elif call == "AutoImage":
